@@ -18,7 +18,7 @@ import (
 func init() { register("C16", "exploration", runC16) }
 
 func runC16(run *common.Run) {
-	run.Rule = "Part 'policy' (sequential): case = generated table (families with max-versions 1..3, max-age, union of both, nested union, intersection [unsupported], no rule) with cells exactly at, 1 ms before and 1 ms after the max-age cut-off, several versions, rows that become empty, plus a second table without rules; one real pass forced through the hook entry point with the injected clock; full scans before/after compared with the GC model, emptied rows absent from ReadRows and SampleRowKeys. Part 'race': case = one forced pass over 250-1200 rows during which, at every point where the pass has released the table lock (hook gc.unlocked), 1-3 client writes (new cell, overwrite, old-timestamp cell, DeleteFromRow) to rows behind, at and ahead of the cursor are performed and acknowledged; final scan: every written row must equal 'GC applied at some position of its acknowledged write sequence', unwritten rows GC(initial) [leveldb engines; on btree only 'no acknowledged write lost']. Part 'idle': a pass on a table used just now changes nothing, after pretending 10 min of inactivity it collects; a pass over >= 2000 rows releases the lock at least once and clients complete while it is parked there. Non-trivial = pass that removed some but not all cells (policy) / pass with >= 1 injected write acknowledged (race); distinct by case."
+	run.Rule = "Part 'policy' (sequential): case = generated table (families with max-versions 1..3, max-age, union of both, nested union, intersection [unsupported], no rule) with cells exactly at, 1 ms before and 1 ms after the max-age cut-off, several versions, rows that become empty, plus a second table without rules; one real pass forced through the hook entry point with the injected clock; full scans before/after compared with the GC model, emptied rows absent from ReadRows and SampleRowKeys. Part 'race': case = one forced pass over 250-1200 rows during which, at every point where the pass has released the table lock (hook gc.unlocked), 1-3 client writes (new cell, overwrite, old-timestamp cell, DeleteFromRow) to rows behind, at and ahead of the cursor are performed and acknowledged; final scan: every written row must equal 'GC applied at some position of its acknowledged write sequence', unwritten rows GC(initial) [all three engines]. Part 'idle': a pass on a table used just now changes nothing, after pretending 10 min of inactivity it collects; a pass over >= 2000 rows releases the lock at least once and clients complete while it is parked there. Non-trivial = pass that removed some but not all cells (policy) / pass with >= 1 injected write acknowledged (race); distinct by case."
 	run.Assumptions = []string{"GC model: max-versions keeps the N newest, max-age condemns ts < now-age, union = either, unsupported types leave the family alone", "nested intersection inside a union is not generated", "the 15-60 s scheduling loop itself is not waited for; the pass is entered through the verif hook"}
 	if run.WantSub("policy") {
 		c16Policy(run)
@@ -407,22 +407,6 @@ func c16RacePass(r *common.Rand, engine string, allowDelete bool) (out c16PassRe
 			ok := false
 			for _, a := range adm {
 				if model.SameCells(a, got[k]) {
-					ok = true
-				}
-			}
-			if engine == "btree" && !ok {
-				// btree: iteration under structural change is documented as unpredictable; require only that no
-				// acknowledged write is lost: the row must equal the writes applied with GC at some position OR with no GC
-				t := &model.Table{Families: m.Families, Rows: map[string]map[string]map[string]map[int64]string{}}
-				if row, okk := initial.Rows[k]; okk {
-					t.Rows[k] = row
-				}
-				t = t.Clone()
-				for _, w := range ws {
-					_, nr := t.Apply(k, w.muts, now)
-					t.Commit(k, nr)
-				}
-				if model.SameCells(t.RowCells(k), got[k]) {
 					ok = true
 				}
 			}
